@@ -4,6 +4,19 @@ import "verif/internal/eng"
 
 func init() {
 	register(&Property{
+		ID: "C48",
+		Explanation: "Decides the structural necessary condition behind 'each member once': every method of index.AssociatedSet that enumerates members by walking one of the per-entry iterators of the index (MasterIndex.Values, Index.Values, indexMap.values yield one element per stored copy of a blob) guards its yield with a first-occurrence test against a local seen-set that is updated on every path before yielding; Len and Keys enumerate through All and inherit it. The rule reported the genuine defect in AssociatedSet.All (a blob stored in two packs was yielded twice, Len()==2 for a one-member set), which is fixed. Not decided: the overflow-set bookkeeping and Intersect/Sub value preservation.",
+		Assumptions: commonAssumptions,
+		Technique:   "static analysis: guard-and-update pattern on the CFG of range-over-func bodies (go/ssa)",
+		Run:         func(c *eng.Ctx) { ruleSetOverMultimap(c) },
+		Controls: []Control{
+			{Name: "drop-seen-test", File: "internal/repository/index/associated_data.go",
+				Old: "			if reported[bh.Type][idx] {\n				// duplicate index entry of an already reported handle\n				continue\n			}\n", New: "", Rule: "set-over-multimap"},
+			{Name: "forget-to-mark-reported", File: "internal/repository/index/associated_data.go",
+				Old: "			reported[bh.Type][idx] = true\n", New: "", Rule: "set-over-multimap"},
+		},
+	})
+	register(&Property{
 		ID: "C33",
 		Explanation: "Decides effects and order of repair index: (no-pack-removal) the call closure of repository.RepairIndex (static callees, function literals, function values, interface calls resolved by class-hierarchy analysis over the module; calls on backend.Backend are the effect boundary) contains neither PrunePlan.Execute nor RepairPacks — the only pack removers by rule pack-removers —, every removal call with a constant file type in the closure names IndexFile, and the only direct backend Remove in it is the removeUnpacked wrapper; (repair-order) rewriteIndexFiles is reachable from the pack-reading step only through createIndexFromPacks' success edge and after successful listings; in createIndexFromPacks a pack's entries enter the index (StorePack) only on the success edge of listPack for that pack with the entries just listed — unreadable packs are never indexed — and success requires the workers and the flush to succeed; (rewrite-order) obsolete index files are removed only after all new ones were saved. Not decided: that the listed positions equal the true positions (C06) for every pack content.",
 		Assumptions: commonAssumptions,
